@@ -2459,6 +2459,8 @@ class Transport(threading.Thread, ClosingContextManager):
                     if not k.startswith(mp_required_prefix)
                 ]
                 self.get_security_options().kex = pkex
+                # re-read: the list built above still names group-exchange
+                kex_algos = list(self.preferred_kex)
             available_server_keys = list(
                 filter(
                     list(self.server_key_dict.keys()).__contains__,
